@@ -191,9 +191,129 @@ func gen(t *rapid.T) Case {
 		}
 		return anyCid(label)
 	}
+	// generator-side copy of the blockstore content (a pure function of Init and the add /
+	// remove ops drawn so far), used to aim the directed overflow pattern below
+	gstore := map[int]bool{}
+	for _, ci := range c.Init {
+		gstore[ci] = true
+	}
+	track := func(op Op) {
+		for _, ci := range op.Cids {
+			if op.Kind == "add" {
+				gstore[ci] = true
+			} else if op.Kind == "remove" {
+				delete(gstore, ci)
+			}
+		}
+	}
+	// burst: the shape the overflow clause of the statement is about, which independent
+	// random messages reach only rarely: a message that fills the peer's list to the limit
+	// with a chosen number of wants without a local block (made block-less before or after
+	// the intake), directly followed by one incremental message of 1..limit newcomers, most
+	// of them with a local block and usually more important than the listed wants.
+	burst := func() bool {
+		L := c.Cfg.Limit
+		pi := rapid.IntRange(0, c.NPeers-1).Draw(t, "bpeer")
+		var cand []int
+		for _, ci := range normal {
+			if c.Cfg.Filter > 0 && (pi+ci)%c.Cfg.Filter == 0 {
+				continue // denied requests never reach the list
+			}
+			cand = append(cand, ci)
+		}
+		if len(cand) < L+1 {
+			return false
+		}
+		perm := rapid.Permutation(cand).Draw(t, "bperm")
+		fillC, rest := perm[:L], perm[L:]
+		nBl := rapid.SampledFrom([]int{0, 1, 2, 2, 2, 3, 3, L}).Draw(t, "bnbl")
+		if nBl > L {
+			nBl = L
+		}
+		kmax := len(rest)
+		if kmax > L {
+			kmax = L
+		}
+		k := rapid.IntRange(1, kmax).Draw(t, "bk")
+		if rapid.Bool().Draw(t, "bdeep") {
+			// more newcomers than block-less listed wants
+			if k = nBl + 1 + rapid.IntRange(0, 2).Draw(t, "bextra"); k > kmax {
+				k = kmax
+			}
+		}
+		burstC := rest[:k]
+		fp := make([]int32, L)
+		for j := range fp {
+			fp[j] = rapid.SampledFrom(prios).Draw(t, "bfprio")
+		}
+		if rapid.Bool().Draw(t, "blowfirst") {
+			// the block-less wants (first nBl of the fill) are the least important ones
+			sort.Slice(fp, func(a, b int) bool { return fp[a] < fp[b] })
+		}
+		var toAdd, toRemove []int
+		for j, ci := range fillC {
+			if j < nBl && gstore[ci] {
+				toRemove = append(toRemove, ci)
+			} else if j >= nBl && !gstore[ci] {
+				toAdd = append(toAdd, ci)
+			}
+		}
+		for _, ci := range burstC {
+			if !gstore[ci] && rapid.IntRange(0, 3).Draw(t, "bnewblk") != 0 {
+				toAdd = append(toAdd, ci)
+			}
+		}
+		ent := func(ci int, prio int32) Ent {
+			return Ent{Cid: ci, Prio: prio, Have: rapid.IntRange(0, 2).Draw(t, "bhave") == 0, SendDH: rapid.Bool().Draw(t, "bdh")}
+		}
+		fill := Op{Kind: "msg", Peer: pi, Full: rapid.Bool().Draw(t, "bfull")}
+		for j, ci := range fillC {
+			fill.Ents = append(fill.Ents, ent(ci, fp[j]))
+			hot = append(hot, ci)
+		}
+		// message order is independent of importance
+		fo := rapid.Permutation(fill.Ents).Draw(t, "bforder")
+		fill.Ents = fo
+		nm := Op{Kind: "msg", Peer: pi}
+		mode := rapid.IntRange(0, 2).Draw(t, "bmode")
+		for _, ci := range burstC {
+			pr := rapid.SampledFrom(prios).Draw(t, "bnprio")
+			if mode != 0 && pr < 1<<20 {
+				pr += 10 // above every ordinary listed priority, ties and order among newcomers kept
+			}
+			nm.Ents = append(nm.Ents, ent(ci, pr))
+			hot = append(hot, ci)
+		}
+		var seq []Op
+		if len(toAdd) > 0 {
+			seq = append(seq, Op{Kind: "add", Cids: toAdd})
+		}
+		rmFirst := rapid.Bool().Draw(t, "brmfirst")
+		if len(toRemove) > 0 && rmFirst {
+			seq = append(seq, Op{Kind: "remove", Cids: toRemove})
+		}
+		seq = append(seq, fill)
+		if len(toRemove) > 0 && !rmFirst {
+			seq = append(seq, Op{Kind: "remove", Cids: toRemove})
+		}
+		seq = append(seq, nm)
+		for _, op := range seq {
+			track(op)
+			c.Ops = append(c.Ops, op)
+		}
+		fresh[pi] = false
+		return true
+	}
 	for i := 0; i < nops; i++ {
 		var op Op
-		switch k := rapid.IntRange(0, 19).Draw(t, "kind"); {
+		k := rapid.IntRange(0, 21).Draw(t, "kind")
+		if k >= 20 {
+			if burst() {
+				continue
+			}
+			k = 0 // not enough permitted CIDs for this limit: an ordinary message instead
+		}
+		switch {
 		case k < 11:
 			op.Kind = "msg"
 			op.Peer = rapid.IntRange(0, c.NPeers-1).Draw(t, "peer")
@@ -241,6 +361,7 @@ func gen(t *rapid.T) Case {
 		default:
 			op.Kind = "tick"
 		}
+		track(op)
 		c.Ops = append(c.Ops, op)
 	}
 	return c
@@ -544,6 +665,20 @@ func (h *harness) doMsg(step int, op Op) *kit.Result {
 		h.classes["overflow:msg-longer-than-limit"] = true
 	}
 	hasBlk := func(ci int) bool { return h.present(ci) && h.c.Sizes[ci] > 0 }
+	{
+		nbl := 0
+		for ci := range E {
+			if !hasBlk(ci) {
+				nbl++
+			}
+		}
+		if nbl >= 2 {
+			h.classes["overflow:blockless>=2"] = true
+			if union-h.c.Cfg.Limit > nbl {
+				h.classes["overflow:deeper-than-blockless"] = true
+			}
+		}
+	}
 
 	var rejected, admitted []int
 	for _, ci := range wantOrder {
@@ -680,8 +815,10 @@ func (h *harness) doMsg(step int, op Op) *kit.Result {
 		}
 		pn := wants[n].Priority
 		if mayBeCut(n) {
+			h.classes["overflow:rejected-maybe-cut"] = true
 			continue
 		}
+		h.classes["overflow:rejected-with-block"] = true
 		// P2
 		for _, ci := range surv {
 			if !hasBlk(ci) {
